@@ -621,3 +621,164 @@ def _defragment(vc):
             vc.ensure("channel-data-is-the-unscaled-raw-data-read-once-in-full",
                       o.data is c._data and c.read_calls == [(0, None, False)])
             i += 1
+
+
+# ---------------------------------------------------------------------------- offsets vs bytes written, any number of objects
+#
+# TdmsSegment._data_size and TdmsSegment._write_data loop over self.objects; both loops are cut by invariants over the
+# same prefix-sum function DS (DS(0) = 0, DS(k+1) = DS(k) + size of object k if it carries data), so for ANY number of
+# objects: the lead-in's next-segment offset minus its raw-data offset is DS(n), and _write_data writes every data
+# object exactly once, in list order, DS(n) bytes in all.  object_data_size / write_data are used through one
+# contract pair (SIZE(object) bytes; their agreement per data type is what writer_segment_write checks).
+
+from pyvc.interp import LoopSpec, SymSeq
+
+DS = z3.Function("W_DS", z3.IntSort(), z3.IntSort())
+
+
+class WObjects(object):
+    """self.objects: any number of objects; element k is a channel with data or an object without data"""
+    _absent = ()
+
+    def __init__(self, vc, n):
+        self.vc, self.n = vc, n
+        self.elements = []          # (k, object, size or None)
+
+    def element(self, k):
+        for (k0, o, size) in self.elements:
+            if k0 is k:
+                return o
+        vc = self.vc
+        tag = sym.fresh_name("wobj")
+        if vc.interp.truth(vc.bool(tag + "_has_data")):
+            kind = "num:int32" if vc.interp.truth(vc.bool(tag + "_int32")) else "num:float64"
+            o = mk_object(vc, kind, tag, None)
+            size = vc.int(tag + "_bytes", lo=0)
+        else:
+            o = mk_object(vc, "group", tag, None)
+            size = None
+        self.elements.append((k, o, size))
+        return o
+
+    def size_of(self, o):
+        for (k0, oo, size) in self.elements:
+            if oo is o:
+                return size
+        return None
+
+    def as_symseq(self):
+        return SymSeq(self.n, self.element, "objects")
+
+
+def _setup_offsets(interp):
+    def object_data_size(interp_, f, args, kwargs):
+        st = sym.get_state()
+        g = st.ghost["wofs"]
+        (data_type, data) = args
+        owner = [o for (k0, o, size) in g["objs"].elements if size is not None and o.data is data]
+        st.check("call/object_data_size-of-an-object's-own-type-and-data",
+                 len(owner) == 1 and data_type is interp_.getattr_value(owner[0], "data_type"), kind="call-pre")
+        if len(owner) != 1:
+            raise sym.Unsupported("object_data_size of foreign data")
+        g["sized"].append(owner[0])
+        return g["objs"].size_of(owner[0])
+
+    def write_data(interp_, f, args, kwargs):
+        st = sym.get_state()
+        g = st.ghost["wofs"]
+        (file, obj) = args
+        size = g["objs"].size_of(obj)
+        st.check("call/write_data-of-a-data-object-of-this-segment", size is not None, kind="call-pre")
+        if size is None:
+            raise sym.Unsupported("write_data of foreign object")
+        g["writes"].append((file, obj, file.pos))
+        file.pos = file.pos + size
+        return None
+
+    interp.contracts_at_calls["nptdms.writer:object_data_size"] = object_data_size
+    interp.contracts_at_calls["nptdms.writer:write_data"] = write_data
+
+    def contribution(g, k):
+        mine = [(o, size) for (k0, o, size) in g["objs"].elements if k0 is k]
+        (o, size) = mine[0]
+        return o, (size if size is not None else 0)
+
+    def define_next(env, k, st):
+        g = st.ghost["wofs"]
+        o, c = contribution(g, k)
+        st.assume(_lift(DS(sym.z3int(k + 1))) == _lift(DS(sym.z3int(k))) + c)     # definition of DS(k+1)
+        g["sized"][:] = []
+        g["writes"][:] = []
+        st.ghost["witer"] = dict(k=k, obj=o, c=c)
+
+    def inv_size(env, k, st):
+        return [("running-total-is-the-prefix-sum", env.vars["data_size"] == _lift(DS(sym.z3int(k)))),
+                ("running-total-never-negative", env.vars["data_size"] >= 0)]
+
+    def havoc_cursor(st, env):
+        g = st.ghost["wofs"]
+        g["file"].pos = st.fresh_int("cursor")
+        return None
+
+    def inv_write(env, k, st):
+        g = st.ghost["wofs"]
+        out = [("cursor-advanced-by-the-prefix-sum", g["file"].pos == g["pos0"] + _lift(DS(sym.z3int(k))))]
+        it = st.ghost.get("witer")
+        if it is not None and not it.get("checked") and g["phase"] == "write":
+            it["checked"] = True
+            has = g["objs"].size_of(it["obj"]) is not None
+            if has:
+                out.append(("data-object-written-exactly-once-to-the-segment's-file",
+                            len(g["writes"]) == 1 and g["writes"][0][0] is g["file"]
+                            and g["writes"][0][1] is it["obj"]))
+            else:
+                out.append(("object-without-data-writes-nothing", len(g["writes"]) == 0))
+        return out
+
+    interp.loop_specs[("nptdms.writer:TdmsSegment._data_size", 0)] = LoopSpec(
+        inv_size, havoc={"data_size": "int"}, on_iter=define_next, name="objects-sized")
+    interp.loop_specs[("nptdms.writer:TdmsSegment._write_data", 0)] = LoopSpec(
+        inv_write, havoc={"__heap__": havoc_cursor}, on_iter=define_next, name="objects-written")
+
+
+@harness("writer_offsets_all_objects", ["writer.TdmsSegment._data_size", "writer.TdmsSegment._write_data",
+                                        "writer.TdmsSegment.leadin"],
+         ["C08", "C07"], variants=[("data-file,4713", (False, 4713)), ("index-file,4712", (True, 4712))],
+         setup=_setup_offsets, level="proof",
+         note="ANY number of objects in the segment (two loop invariants over one prefix-sum function): lead-in "
+              "offsets and the bytes _write_data emits agree; object_data_size/write_data by contract (assumed to "
+              "agree on the size of one object, checked per data type by writer_segment_write)")
+def _writer_offsets_all(vc):
+    is_index, version = vc.variant
+    st = vc.st
+    n = vc.int("objects", lo=0)
+    objs = WObjects(vc, n)
+    seg = vc.new("writer.TdmsSegment", objects=objs, _tdms_version=version, is_index_file=is_index)
+    f = SFile("out")
+    pos0 = vc.int("pos0", lo=0)
+    f.pos = pos0
+    st.ghost["wofs"] = dict(objs=objs, sized=[], writes=[], file=f, pos0=pos0, phase="size")
+    st.add_fact(DS(0) == 0)
+    msize = vc.int("metadata_size", lo=4)
+    # precondition: the segment fits the format's 64-bit offset fields
+    vc.assume(msize + _lift(DS(sym.z3int(n))) < 2 ** 64)
+    vc.cover("many-objects-are-within-the-precondition", n >= 1000)
+    out = vc.call_method(seg, "leadin", ["kTocMetaData", "kTocRawData", "kTocNewObjList"], msize)
+    vc.ensure("leadin/no-exception", out.kind == "ret")
+    if out.kind != "ret":
+        return
+    lead = out.value
+    total = _lift(DS(sym.z3int(n)))
+    vc.ensure("leadin/five-fields", len(lead) == 5)
+    vc.ensure("leadin/tag", as_wbytes(lead[0].bytes).parts == as_wbytes(b"TDSh" if is_index else b"TDSm").parts)
+    vc.ensure("leadin/toc-mask", lead[1].value == (L.TOC_META | L.TOC_RAW | L.TOC_NEW_OBJ_LIST))
+    vc.ensure("leadin/version", lead[2].value == version)
+    vc.ensure("leadin/next-segment-offset-is-metadata-plus-all-data-bytes", lead[3].value == msize + total)
+    vc.ensure("leadin/raw-data-offset-is-the-metadata-size", lead[4].value == msize)
+    st.ghost["wofs"]["phase"] = "write"
+    st.ghost["witer"] = None
+    w = vc.call_method(seg, "_write_data", f)
+    vc.ensure("write/no-exception", w.kind == "ret")
+    vc.ensure("write/bytes-written-equal-the-difference-of-the-lead-in-offsets",
+              f.pos - pos0 == lead[3].value - lead[4].value)
+    vc.ensure("segment-keeps-its-object-list", seg.objects is objs, kind="frame")
